@@ -28,7 +28,9 @@ From RM Require Import Model.EncObjCarry Proofs.EncObjTimes Proofs.EncObjectsRT.
 From RM Require Import Model.EncTimingSpec Proofs.ControlPointsFacts Proofs.EncTimingParse
   Proofs.EncCollect Proofs.EncGroups Proofs.EncTimingInv Proofs.EncTimingRT Proofs.EncTimingExample Proofs.EncTimingImage
   Proofs.TimingPointsValues.
-From RM Require Import Proofs.Enc2Values Proofs.Enc2Samples Proofs.Enc2Float Proofs.Enc2Timing Proofs.Enc2Examples.
+From RM Require Import Proofs.Enc2Values Proofs.Enc2Samples Proofs.Enc2Float Proofs.Enc2Timing Proofs.Enc2Slider Proofs.Enc2Examples.
+From RM Require Model.Curve.
+From RM Require Import Model.DrvEnc Proofs.EncMapImage.
 From RM Require Import Gen.Generated.
 Open Scope Z_scope.
 
@@ -586,30 +588,132 @@ Theorem C02_respec_is_decode :
 Proof. exact legacy_spec_respec. Qed.
 Print Assumptions C02_respec_is_decode.
 
+(* ---------- T02e: sliders end to end ---------- *)
+(* Vocabulary (Proofs/Enc2Slider.v).  [slider_curve lm s]: the curve of the slider's path (pure
+   curve model Model/Curve.v at the fuel of the correspondence check, control points converted as
+   in Model/DrvEnc.v; [lm] = libm, arbitrary).  [written_of e c]: the length the encoder writes --
+   the explicit length, or the distance of the computed curve.  [reread_len d]: what the decoder
+   makes of the written length field (.max(0.0), "no length" below f64::EPSILON).
+   [elen_img h]: an explicit length is at least EPSILON (an invariant of decoded maps). *)
+
+(* the explicit lengths of every decoded map (any input) are read back as themselves *)
+Theorem C02_decoded_explicit_lengths :
+  forall dist_of lines m, decode_beatmap dist_of lines = Done m ->
+  Forall elen_img (hov_hit_objects (bmv_ho m)).
+Proof. exact decoded_elen_img. Qed.
+Print Assumptions C02_decoded_explicit_lengths.
+
+(* requesting what was written reproduces the curve: an explicit length is requested again; the
+   distance of the natural curve is requested as an explicit length EQUAL to the natural length,
+   which keeps the natural curve (the crate compares (calculated - requested).abs() > 0.0: C16),
+   or is not requested at all when below EPSILON *)
+Theorem C02_curve_reread :
+  forall lm fuel mode pts e c,
+  Curve.curve_L1 lm fuel mode pts e = Done c ->
+  match e with Some L => D.ge L D.eps = true | None => D.is_nan (Curve.dist (Curve.c_lengths c)) = false end ->
+  Curve.curve_L1 lm fuel mode pts (reread_len (written_of e c)) = Done c.
+Proof. exact curve_reread. Qed.
+Print Assumptions C02_curve_reread.
+
+(* T02e per line.  [h] a slider of the decoder's image with curve [c], outside the recorded classes
+   ([slider_ok]: D13 / D17 / consecutive Catmull, D21 for the written length; sample data
+   representable, C04); [st] ANY parser state whose mode is the mode the slider was read under (on
+   re-reading an encoding, [General] precedes [HitObjects]; the other order in the original input is
+   class D22).  The line is accepted and adds ONE slider with the same start time, position,
+   control points, repeat count, node count, the expected length [reread_len] of the written one,
+   and THE SAME CURVE: same path, same cumulative lengths. *)
+Theorem C02_slider_round_trip_partial :
+  forall lm fmt_f64 fmt_f32 fmt_int, fmt_ok fmt_f64 fmt_f32 fmt_int -> fmt_f32_int fmt_f32 fmt_int ->
+  forall mode h s c l,
+  h_kind h = KSlider s -> elen_img h ->
+  slider_curve lm s = Done c ->
+  slider_ok h s (written_of (sl_expected_dist s) c) = true ->
+  object_line (dist_real lm) mode h = Done l ->
+  forall st, ho_mode st = sl_mode s ->
+  exists st' o s',
+    parse_hit_objects st (render fmt_f64 fmt_f32 fmt_int l) = Done (st', Ok) /\
+    ho_objects st' = ho_objects st ++ [o] /\
+    h_start o = h_start h /\ h_kind o = KSlider s' /\
+    sl_pos s' = sl_pos s /\
+    sl_control_points s' = sl_control_points s /\
+    sl_repeat_count s' = sl_repeat_count s /\
+    length (sl_node_samples s') = Z.to_nat (sl_repeat_count s + 2) /\
+    sl_expected_dist s' = reread_len (written_of (sl_expected_dist s) c) /\
+    slider_curve lm s' = Done c.
+Proof. exact slider_round_trip. Qed.
+Print Assumptions C02_slider_round_trip_partial.
+
+(* the velocity: two decoded maps that agree on SliderMultiplier and mode (T02a), on the timing
+   points and on the slider-velocity timeline (T02d) give sliders with the same start time the same
+   velocity (it is the closed form slider_velocity_of over these: C15) *)
+Theorem C02_slider_velocity_round_trip :
+  forall dist_of lines1 lines2 m1 m2 h1 h2 s1 s2,
+  decode_beatmap dist_of lines1 = Done m1 -> decode_beatmap dist_of lines2 = Done m2 ->
+  let ho1 := bmv_ho m1 in let ho2 := bmv_ho m2 in
+  d_slider_multiplier (hov_difficulty ho1) = d_slider_multiplier (hov_difficulty ho2) ->
+  g_mode (hov_general ho1) = g_mode (hov_general ho2) ->
+  cp_timing (hov_control_points ho1) = cp_timing (hov_control_points ho2) ->
+  (forall t, sv_at (hov_control_points ho1) t = sv_at (hov_control_points ho2) t) ->
+  In h1 (hov_hit_objects ho1) -> In h2 (hov_hit_objects ho2) ->
+  h_kind h1 = KSlider s1 -> h_kind h2 = KSlider s2 -> h_start h1 = h_start h2 ->
+  sl_velocity s1 = sl_velocity s2.
+Proof. exact decoded_velocity_eq. Qed.
+Print Assumptions C02_slider_velocity_round_trip.
+
+(* non-vacuity: three decoded sliders -- explicit length equal to the natural length, no length
+   field (the natural length 141.42... is written and read back as an explicit length), explicit
+   length shorter than the curve -- satisfy [slider_ok] with the real curve model *)
+Example C02_sliders_example :
+  match decode_beatmap (dist_real lm0) (lines_of_text sliders_text) with
+  | Done m =>
+      map slider_facts (hov_hit_objects (bmv_ho m)) =
+      [[1; D.bits (D.of_Z 100); D.bits (D.of_Z 100); D.bits (D.of_Z 100); 2; 0];
+       [1; -1; 4639179838182129664; 4639179838182129664; 2; 0];
+       [1; D.bits (D.of_Z 150); D.bits (D.of_Z 150); D.bits (D.of_Z 150); 2; 0]]
+  | _ => False
+  end.
+Proof. exact sliders_example. Qed.
+
 (* ---------- status of the remaining obligations ----------
 
    T02b  circles / spinners / holds: MECHANISED per line (above), up to [carry_object] (per-sample
      volume / custom index / suffix / layering erased).  Hypotheses that are not proved of every
-     decoded map: [object_ok] (false in class D26: start + duration leaves the parse limit by
-     rounding -- C02_decoded_end_beyond_limit_refuted), [spinner_time_ok] / [hold_time_ok] for
-     non-integer times (C02_times_ok_partial covers integer times), sample points carrying a real
-     bank.
+     decoded map: [object_ok] -- its sample part is now an invariant outside D30
+     (C04_decoded_samples_image); it is false in class D26 (start + duration leaves the parse limit
+     by rounding: C02_decoded_end_beyond_limit_refuted) and D30 (sample file name ending in white
+     space: C04_sample_name_trimmed_refuted) --, [spinner_time_ok] / [hold_time_ok] for non-integer
+     times (C02_times_ok_partial covers integer times), sample points carrying a real bank.
 
    T02c  slider path strings: MECHANISED in full (C02_path_round_trip on the decoder's image
      C02_path_image_is_decoder_image, outside D13 / D17 / consecutive Catmull).
 
-   T02d  timing points and the three timelines: MECHANISED under explicit, decidable side
-     conditions ([rt_side]: times / values separated by more than f64::EPSILON, slider velocities
-     that survive -100/sv -> 100/-x, scroll speed following slider velocity (D12), written numbers
-     within the parse limits) -- C02_timing_round_trip_partial; the side conditions are hypotheses,
-     not facts about every decoded map (two of them are violated by decodable inputs: classes D27 /
-     D28 of known_findings.json).
+   T02d  timing points and the three timelines: MECHANISED for decoded maps
+     (C02_timing_round_trip_decoded_partial).  The value side conditions (clamps, finite times)
+     and "written numbers within the parse limits" are now FACTS about every decoded map
+     (C02_decoded_control_point_limits, C02_written_beat_fields_within_limits,
+     C02_decoded_timing_invariants).  What remains as hypotheses is [rt_classes] -- every clause of
+     which is refuted by a decodable input: separated times (D28, D8), separated values (D27),
+     scroll speed following slider velocity (D12), sample-point times within the limits (D26, D32)
+     -- and the float fact [svs_round_trip] (100 / (100 / sv) = sv after rounding), which is NOT
+     proved for the decoder's image.  Argument on paper (not mechanised): for sv = fl(100 / x),
+     y = fl(100 / sv), a failure fl(100 / y) <> sv forces, with integer significands Y of y and
+     T of sv, 100 * 2^k = (Y + 1)(2Y + 1) / 2 or Y (2Y + 1) / 2, i.e. the odd number 2Y + 1 >= 2^53
+     would divide 25; exhaustive-style search (3 * 10^6 velocities in the image) finds no failure.
+     A velocity outside the image can fail (C02_sv_round_trips_refuted).
 
-   T02e  sliders end to end (node samples, expected vs computed length, velocity, curve equality):
-     control points, repeat count and node count per line are in C04 (C04_slider_line_accepted);
-     the map-level part (C15 / C18 composition) is not mechanised.
+   T02e  sliders end to end: MECHANISED per line (C02_slider_round_trip_partial): accepted in every
+     parser state of the slider's mode, same start time, position, control points, repeat count,
+     node count, and the SAME CURVE (path and cumulative lengths), through the expected-length
+     semantics (explicit length re-requested; natural length written, re-read as an explicit length
+     equal to the natural one, which keeps the natural curve: C02_curve_reread, from C16's exact
+     comparison); the velocity is a function of data shown equal by T02a / T02d
+     (C02_slider_velocity_round_trip).  Hypotheses: [slider_ok] (outside D13 / D17 / consecutive
+     Catmull / D21, representable samples: outside D30) and the parser state's mode (class D22 on
+     the original input).  Not stated: node SAMPLE names/banks of the re-read slider (file names on
+     nodes are lost: new class D31), and the composition of the per-line / per-section results
+     with the framing theorem into one statement about decode (render (encode m)).
 
    Everything above is also covered by the bit-exact `enc` correspondence (decode + encode model
    against the crate, slider files included) and by the C02 oracle, which compares exactly the
    items the property lists on the real crate; the classes D12, D13, D17, D21, D22, D23, D26, D27,
-   D28 are the only failures it reports on the pinned tree. *)
+   D28, D30, D31 are the only failures it reports on the pinned tree. *)
